@@ -101,7 +101,9 @@ func c12check(c *C, id string, files []File, args []string, keyClass string) {
 		return
 	}
 	if el > 20*time.Second {
-		c.Violation("slow:"+keyClass, fmt.Sprintf("the command needed %s on a small input (%s)", el, id), fm, extra)
+		// not an alarm (wall-clock under load proves nothing); the hang watchdog with isolated re-runs decides
+		c.W.Note(fmt.Sprintf("slow case: the command needed %s on %s", el, id))
+		c.Count("slow_cases")
 	}
 	content, err := os.ReadFile("out.go")
 	if r.Exit == 0 {
@@ -126,7 +128,7 @@ func init() {
 		Level: "exploration",
 		Rule: "(a) every byte string of length <= 3 (quick) / <= 4 (thorough) over 22 YAML-significant bytes (incl. 0xFF) as a whole input file and spliced at three anchor points of a valid configuration; (b) 41 schema positions x 30 node shapes (null, bools, numbers, non-finite and overflowing numbers, strings, sequences, mappings with scalar / numeric / sequence keys, anchors and aliases, tags, timestamps, merge keys, block indicators) singly and (thorough: all; quick: every pair involving a composite shape in the first position) in pairs; " +
 			"(c) every glob pattern of length <= 3 (quick) / <= 4 (thorough) over {*, ?, [, ], \\, a, /, ., -, ^}; (d) all 64 presence combinations of the 6 flags; (e) complete digraphs K2..K5 (thorough K6) as service and as parameter dependency graphs; (f) nesting depth 2^k up to 4096 and names of 64 KiB; (g) every string of length <= 4 (quick) / <= 5 (thorough) over {(, ), \", a, +, [, ], ., comma, 1} as the argument text of env / envInt / todo chunks; (h) all pairs and triples of the 11 semantic defects of C16 x 4 flag combinations. Oracle: returns, exit status 0 or 1, exit 0 => the output parses as Go, exit != 0 => no output written; non-trivial = rejected or contains a non-alphanumeric byte; distinct = distinct input",
-		Assumptions: []string{"a hang is a case exceeding the 120 s watchdog in the worker and in three isolated re-runs; 20 s on these small inputs is already reported as 'slow'", "printer write errors (closed stdout) are outside the input space"},
+		Assumptions: []string{"a hang is a case exceeding the 120 s watchdog in the worker and in three isolated re-runs; cases slower than 20 s are listed as notes, never as violations", "printer write errors (closed stdout) are outside the input space"},
 		BudgetQuick: 280 * time.Second, BudgetThorough: 1700 * time.Second,
 		Run: func(w *W) {
 			L, G := 3, 3
